@@ -30,7 +30,8 @@ def setup(draw):
     return {"n": n, "m": m, "tol": tol, "lin": lin, "quad": quad, "crit": crit}
 
 
-point = st.one_of(st.integers(-4, 4).map(float), st.floats(-5, 5, allow_nan=False).map(lambda x: round(x, 3)))
+point = st.one_of(st.integers(-4, 4).map(float), st.floats(-5, 5, allow_nan=False).map(lambda x: round(x, 3)),
+                  st.sampled_from([5.0, -5.0, 5.0 - 5e-5, -5.0 + 5e-5]))     # on / next to the bounds of the box
 
 
 @st.composite
@@ -39,6 +40,8 @@ def batch_history(draw):
     nb = draw(st.integers(1, 4))
     batches = [[[draw(point) for _ in range(s["n"])] for _ in range(draw(st.integers(1, 4)))] for _ in range(nb)]
     s["batches"] = batches
+    # optionally the objective fails transiently the first time it sees the k-th design (it is re-sampled and retried)
+    s["fail_call"] = draw(st.one_of(st.none(), st.none(), st.integers(0, 12)))
     return s
 
 
@@ -49,10 +52,16 @@ def objective(s):
     return f
 
 
-def _problem(s, log):
+def _problem(s, log, fail_call=None):
     f = objective(s)
+    state = {"n": 0, "fired": False}
 
     def ev(ind):
+        k = state["n"]
+        state["n"] += 1
+        if fail_call is not None and k == fail_call and not state["fired"] and not ind.parents:
+            state["fired"] = True          # only a design itself (not one of its neighbours) is made to fail
+            raise RuntimeError("injected transient failure")
         log.append(list(ind.vector))
         return f(ind.vector)
     ps = [{"name": "x%d" % i, "bounds": [-5.0, 5.0], "tol": s["tol"][i]} for i in range(s["n"])]
@@ -68,7 +77,7 @@ def check_worst_case(case):
     n, m = s["n"], s["m"]
     f = objective(s)
     log = []
-    prob = _problem(s, log)
+    prob = _problem(s, log, fail_call=s.get("fail_call"))
     try:
         with guard("worst-case"):
             alg = GeneticAlgorithm(prob, evaluator_type=EvaluatorType.WORST_CASE)
